@@ -86,6 +86,7 @@ void obligation_solver(int) {}
 void require(bool ok, const std::string& label) { ++g_checks; if (!ok) reproduced(label, ""); }
 void note(const std::string& k) { if (getenv("CONRT_NOTES")) std::cout << "NOTE " << k << "\n"; }
 void fact(const std::string& k, const std::string& v) { std::cout << "FACT " << k << "=" << v << "\n"; }
+void at(const char* callsite) { std::cout << "AT " << callsite << std::endl; }
 void out_of_bound(const std::string& why) { std::cout << "REPLAY-OUT-OF-BOUND " << why << "\n"; exit(5); }
 void poll_abort() {}
 void faults_arm(unsigned kinds) { g_fault_kinds = kinds; }
